@@ -63,6 +63,17 @@ let show_graph (g : nat list list) : string =
   String.concat "," (List.map (fun ds -> if ds = [] then "-" else
                                   String.concat "." (List.map (fun d -> string_of_int (int_of_nat d)) ds)) g)
 
+(* entries into the recursive function of the three traversals (Select.select_visited_calls,
+   ancestors_visited_calls, descendants_visited_calls: one per node in the visited map), and the
+   exact cost formula of C19_*_cost_exact evaluated on the returned lists *)
+let calls (g : nat list list) (t : nat) (b : nat) : string =
+  let deg next v = 1 + List.length (next v) in
+  let wsum next l = List.fold_left (fun acc v -> acc + deg next v) 0 l in
+  let sv = fst (select_visited g t) and av = fst (ancestors_visited g t) and dv = fst (descendants_visited g b) in
+  Printf.sprintf "calls\t%d\t%d\t%d\tformula\t%d\t%d\t%d"
+    (List.length sv) (1 + List.length av) (1 + List.length dv)
+    (wsum (deps g) sv) (deg (deps g) t + wsum (deps g) av) (deg (dependants g) b + wsum (dependants g) dv)
+
 let with_cfg cfg f = match parse_cfg cfg with None -> "pattern-error" | Some c -> f c
 
 let handle (f : string list) : string =
@@ -76,13 +87,14 @@ let handle (f : string list) : string =
           Printf.sprintf "sel\t%s\t%d\t%d" (idxs s) (int_of_nat (selected_count ns s))
             (int_of_nat (platform_skipped c ns g)))
   | ["selectspec"; nodes; cfg] ->
-    (* the repaired variant: roots of the property's reading *)
+    (* the variant repaired for C12-F1: roots of the property's reading *)
     let (ns, g) = parse_nodes nodes in
     with_cfg cfg (fun c ->
         match select_for_build_spec c ns g with
         | PlatformError -> "platform-error"
         | Selected s -> Printf.sprintf "sel\t%s\t%d" (idxs s) (int_of_nat (selected_count ns s)))
   | ["selcost"; nodes; cfg] ->
+    (* history: calls of the former, path-enumerating selection *)
     let (ns, g) = parse_nodes nodes in
     with_cfg cfg (fun c ->
         let (r, calls) = select_marks_c c ns g in
@@ -94,9 +106,20 @@ let handle (f : string list) : string =
     let (ns, g) = parse_nodes nodes in
     with_cfg cfg (fun c -> "list\t" ^ idxs (select_targets c ns g))
   | ["ancestors"; nodes; _; n] ->
+    (* GetAncestors: the nodes as a multiset, and in the order of the returned slice (in-edges are in
+       declaration order, so the order is determined) *)
+    let (_, g) = parse_nodes nodes in
+    let l = fst (ancestors_visited g (nat (int_of_string n))) in
+    "ms\t" ^ sorted_idxs l ^ "\tord\t" ^ idxs l
+  | ["descendants"; nodes; _; n] ->
+    (* GetDescendants: multiset only (the out-edge order depends on Go map iteration) *)
+    let (_, g) = parse_nodes nodes in
+    "ms\t" ^ sorted_idxs (fst (descendants_visited g (nat (int_of_string n))))
+  | ["ancestors-paths"; nodes; _; n] ->
+    (* history: the path enumeration of the code before the repair of C19-F2 *)
     let (_, g) = parse_nodes nodes in
     "ms\t" ^ sorted_idxs (ancestors_paths g (nat (int_of_string n)))
-  | ["descendants"; nodes; _; n] ->
+  | ["descendants-paths"; nodes; _; n] ->
     let (_, g) = parse_nodes nodes in
     "ms\t" ^ sorted_idxs (descendants_paths g (nat (int_of_string n)))
   | ["direct"; nodes; _; n] ->
@@ -123,23 +146,23 @@ let handle (f : string list) : string =
     let g = parse_graph graph in
     let t = nat (int_of_string top) and b = nat (int_of_string bottom) in
     if not (topob g && wf_graphb g) then "not-topological" else
-    Printf.sprintf "cost\tpaths\t%d\t%d\t%d\tvisited\t%d\t%d\t%d\tVE\t%d\t%d"
+    Printf.sprintf "cost\tpaths\t%d\t%d\t%d\tvisited\t%d\t%d\t%d\tVE\t%d\t%d\t%s"
       (int_of_nat (select_paths_cost g t)) (int_of_nat (ancestors_paths_cost g t))
       (int_of_nat (descendants_paths_cost g b))
       (int_of_nat (select_visited_cost g t)) (int_of_nat (ancestors_visited_cost g t))
       (int_of_nat (descendants_visited_cost g b))
-      (List.length g) (int_of_nat (edges g))
+      (List.length g) (int_of_nat (edges g)) (calls g t b)
   | ["costv"; graph; top; bottom] ->
-    (* visited variants only (cheap on any depth) *)
+    (* without the historical path enumerations (exponential): cheap on any depth *)
     let g = parse_graph graph in
     let t = nat (int_of_string top) and b = nat (int_of_string bottom) in
     if not (topob g && wf_graphb g) then "not-topological" else
-    Printf.sprintf "costv\tvisited\t%d\t%d\t%d\tVE\t%d\t%d"
+    Printf.sprintf "costv\tvisited\t%d\t%d\t%d\tVE\t%d\t%d\t%s"
       (int_of_nat (select_visited_cost g t)) (int_of_nat (ancestors_visited_cost g t))
       (int_of_nat (descendants_visited_cost g b))
-      (List.length g) (int_of_nat (edges g))
+      (List.length g) (int_of_nat (edges g)) (calls g t b)
   | ["sets"; graph; top; bottom] ->
-    (* the two visited traversals return the de-duplicated path enumerations *)
+    (* the two traversals return the de-duplicated "all paths" enumerations (C20_deps_is_dedup) *)
     let g = parse_graph graph in
     let t = nat (int_of_string top) and b = nat (int_of_string bottom) in
     Printf.sprintf "sets\t%s\t%s\t%s\t%s"
